@@ -42,13 +42,25 @@ func checkC13(c *Ctx) {
 }
 
 func inlineSampleHelpers(f *ssa.Function) bool {
-	if f.Pkg == nil || f.Pkg.Pkg.Path() != bmathPkg || f.Signature.Recv() == nil {
+	if f.Pkg == nil || f.Pkg.Pkg.Path() != bmathPkg {
+		return false
+	}
+	small := len(naturalLoops(f)) == 0 && len(f.Blocks) <= 8
+	if f.Signature.Recv() == nil {
+		// package-level constructors of the result types (a Comparison or Summary literal moved into a helper)
+		res := f.Signature.Results()
+		if res.Len() != 1 {
+			return false
+		}
+		if n, ok := res.At(0).Type().(*types.Named); ok && n.Obj().Pkg() != nil && n.Obj().Pkg().Path() == bmathPkg && (n.Obj().Name() == "Comparison" || n.Obj().Name() == "Summary") {
+			return small
+		}
 		return false
 	}
 	if recvName(f.Signature.Recv().Type()) != "Sample" {
 		return false
 	}
-	return len(naturalLoops(f)) == 0 && len(f.Blocks) <= 6
+	return small
 }
 
 func c13Compare(c *Ctx, p *Prog) {
